@@ -315,3 +315,17 @@ Example decision_nonvacuous :
   decide_class (CA Define None None None None false false) = Ok (true, false) /\
   decide_class (CA Define None (Some TF) (Some TT) None false false) = VErr.
 Proof. repeat split. Qed.
+
+(** Without the total-order hypothesis the consistency laws fail of the faithful model
+    (and of Python): for two instances holding distinct NaN objects neither [x < y]
+    nor [x >= y] holds. *)
+Example ge_iff_not_lt_refuted_without_total_order :
+  exists attrs (x y : inst cval),
+    i_cls y = i_cls x /\
+    Model.gen_order cval (c_py_eq []) (c_py_cmp []) c_py_is c_keyf Lt attrs x (OInst y) = RV PFalse /\
+    Model.gen_order cval (c_py_eq []) (c_py_cmp []) c_py_is c_keyf Ge attrs x (OInst y) = RV PFalse.
+Proof.
+  exists [F 0 true None true None], (mk_inst 0 [F 0 true None true None] [Vn 1]),
+         (mk_inst 0 [F 0 true None true None] [Vn 2]).
+  vm_compute. repeat split.
+Qed.
